@@ -90,7 +90,7 @@ struct cbor_callbacks rec_table_only(int slot) {
 
 /* ------------------------------------------------------------------ chains */
 const char* const chain_names[CH_NKINDS] = {"tag", "def-array", "indef-array", "def-map-key", "def-map-value",
-                                            "indef-map-key", "indef-map-value", "mixed", "tag-2byte-head", "def-array-last-of-3", "indef-map-second-value", "tag-55799-then-arrays", "tag-24-then-arrays"};
+                                            "indef-map-key", "indef-map-value", "mixed", "tag-2byte-head", "def-array-last-of-3", "indef-map-second-value", "tag-55799-then-arrays", "tag-24-then-arrays", "deep-branch-then-a-sibling-container"};
 
 /* Emits `depth` nested open levels of the given kind around a leaf. The suffix
  * needed to close everything (map values for key nests, breaks) is appended. */
@@ -112,6 +112,7 @@ void gen_chain(int kind, size_t depth, int leaf, struct vh_buf* out, size_t* ope
       case CH_INDEFMAP_VAL: vb_u8(out, 0xbf); vb_u8(out, 0x00); break;
       case CH_SELFDESCRIBED_ARRAYS: if (i == 0) { vb_u8(out, 0xd9); vb_u8(out, 0xd9); vb_u8(out, 0xf7); } else vb_u8(out, 0x81); break; /* a registered tag at the root, then plain arrays */
       case CH_TAG24_ARRAYS: if (i == 0) { vb_u8(out, 0xd8); vb_u8(out, 0x18); } else vb_u8(out, 0x81); break;
+      case CH_DEEP_THEN_SIBLING: vb_u8(out, i == 0 ? 0x82 : 0x81); break; /* [<the deep branch>, [0]]: a container opened after the deepest branch has closed */
       case CH_DEFARR_LAST_OF_3: vb_u8(out, 0x83); vb_u8(out, 0x00); vb_u8(out, 0x61); vb_u8(out, 'a'); break; /* the deep part hangs off the last of three siblings */
       case CH_INDEFMAP_2ND_VALUE: vb_u8(out, 0xbf); vb_u8(out, 0x00); vb_u8(out, 0xf6); vb_u8(out, 0x01); break; /* ... off the value of the second pair */
     }
@@ -157,6 +158,7 @@ void gen_chain(int kind, size_t depth, int leaf, struct vh_buf* out, size_t* ope
       case CH_INDEFMAP_KEY: vb_u8(out, 0xf6); vb_u8(out, 0xff); break;
       case CH_INDEFMAP_VAL: vb_u8(out, 0xff); break;
       case CH_INDEFMAP_2ND_VALUE: vb_u8(out, 0xff); break;
+      case CH_DEEP_THEN_SIBLING: if (i == 0) { vb_u8(out, 0x81); vb_u8(out, 0x00); } break;
       default: break;
     }
   }
